@@ -144,6 +144,16 @@ func runUnits(in unitsIn) (c emit.Case) {
 	}
 	handler := bh{keys: sk}
 
+	// the same transaction object has been metered before under OTHER rules (as admission before a rules change
+	// would): what Units answers must depend on the rules it is given, not on an earlier call
+	if in.Seed%2 == 0 {
+		alt := *rules
+		alt.BaseComputeUnits = rules.BaseComputeUnits/2 + 1
+		alt.StorageKeyReadUnits, alt.StorageValueReadUnits = rules.StorageKeyReadUnits/3+1, rules.StorageValueReadUnits/2+2
+		alt.StorageKeyAllocateUnits, alt.StorageValueAllocateUnits = rules.StorageKeyAllocateUnits/3+2, rules.StorageValueAllocateUnits/2+1
+		alt.StorageKeyWriteUnits, alt.StorageValueWriteUnits = rules.StorageKeyWriteUnits/3+3, rules.StorageValueWriteUnits/2+3
+		_, _ = tx.Units(handler, &alt)
+	}
 	units, uerr := tx.Units(handler, rules)
 	keys, kerr := tx.StateKeys(handler)
 	// a second call must give the same answer (cached keys)
